@@ -25,6 +25,7 @@ class Live:
         self.saves = []       # bytes of every explicit save in the history
         self.log = []         # per-op observations (new ids etc.) for systems that want them
         self.unexpected = []  # (op, exception repr)
+        self.last_target = None  # shape id the last retargeting operation (hyperlink / jump) acted on
 
 
 # ---- helpers ---------------------------------------------------------------------------------------
@@ -280,6 +281,7 @@ def op_hlink_shape(live, op):
     sh = _shape_with_click(s, op.get("which", "last"))
     if sh is None:
         return SKIP
+    live.last_target = sh.shape_id
     sh.click_action.hyperlink.address = op.get("url")
     return "set" if op.get("url") else "cleared"
 
@@ -295,6 +297,7 @@ def op_hlink_run(live, op):
     runs = [r for p in sh.text_frame.paragraphs for r in p.runs]
     if not runs:
         return SKIP
+    live.last_target = sh.shape_id
     runs[0].hyperlink.address = op.get("url")
     return "set" if op.get("url") else "cleared"
 
@@ -306,6 +309,7 @@ def op_target_slide(live, op):
     sh = _shape_with_click(s)
     if sh is None:
         return SKIP
+    live.last_target = sh.shape_id
     if op.get("to") is None:
         sh.click_action.target_slide = None
         return "cleared"
